@@ -98,14 +98,15 @@ def run_stack(case, rec):
     from mc.harness.server import parse_return
     from mc.vloop import VLoop
     out = []
-    for disp in ('sync', 'async'):
+    rq = case['request']
+    disps = ('sync', 'async', 'async-seq') if isinstance(c12.REQUESTS.get(rq), list) else ('sync', 'async')
+    for disp in disps:
         events = []
-        rq = case['request']
         mbs = 1 if rq == 'oversize' else None
         d, log, table = c12.build(disp, tuple(case['stack']), case['table'], events, mbs=mbs)
         text = '{"jsonrpc": ' if rq == 'unparsable' else json.dumps(c12.REQUESTS[rq])
         try:
-            if disp == 'async':
+            if disp != 'sync':
                 loop = VLoop()
                 try:
                     r = loop.run(d.dispatch(text, context=c12.CTX))
@@ -118,11 +119,12 @@ def run_stack(case, rec):
             r = 'raised %s' % type(e).__name__
         rec.transitions += 1
         out.append((json.dumps(r, sort_keys=True), repr(events), repr(log)))
-    if out[0] != out[1]:
-        field = ['response', 'middleware / handler events', 'executions'][[i for i in range(3) if out[0][i] != out[1][i]][0]]
-        rec.violation('C11:dispatcher:%s differ between sync and async (middleware / handler stacks)' % field, case,
-                      expected=dict(sync=out[0]), observed=dict(**{'async': out[1]}))
-        return 'differ'
+    for name, o in zip(disps[1:], out[1:]):
+        if out[0] != o:
+            field = ['response', 'middleware / handler events', 'executions'][[i for i in range(3) if out[0][i] != o[i]][0]]
+            rec.violation('C11:dispatcher:%s differ between sync and %s (middleware / handler stacks)' % (
+                field, 'async' if name == 'async' else 'async with concurrent_batch=False'), case, expected=dict(sync=out[0]), observed={name: o})
+            return 'differ'
     rec.outcomes['stack twins agree'] += 1
     return out[0][0][:80]
 
